@@ -46,7 +46,7 @@ def shaped(g):
 def gen_cases(ctx):
     g = mapgen.MapGen(ctx.rng)
     maxbits = ctx.n(7, 10)
-    specs = shaped(g)
+    specs = [("witness-" + f, w) for f, w in mapgen.WITNESSES[PROP]()] + shaped(g)
     for i in range(ctx.n(70, 1500)):
         o = dict(BASE)
         if ctx.rng.random() < 0.12:
